@@ -14,9 +14,26 @@ import (
 // genC17 turns a base scenario into a C17 scenario: layouts, failing modules,
 // plugin file paths of every shape.
 func genC17(sc *Scenario) {
-	p := sc.Prog
 	// layout: explicit roots above / beside the natural one
 	if simrt.Flip("c17.layout", 0.5) {
+		genLayout(sc)
+	}
+	if simrt.Flip("c17.output-file", 0.12) {
+		sc.OutputFile = outputFileShapes[simrt.ChoiceBias("c17.output-file-shape", len(outputFileShapes), 0.5)]
+	}
+	// failing module
+	if simrt.Flip("c17.fail-module", 0.3) {
+		genFailModule(sc)
+	}
+	genPluginFiles(sc)
+}
+
+var outputFileShapes = []string{"single.go", "nested/single.go", "../up.go", "../../up2.go", "../../../up3.go", "single.txt", "noext"}
+
+// genLayout picks an explicit thrift root above, at or beside the natural one.
+func genLayout(sc *Scenario) {
+	p := sc.Prog
+	{
 		sc.ExplicitRoot = true
 		cd := commonDir(p)
 		cands := []string{"thrift/" + cd, "thrift", ""} // natural, thrift dir, sandbox root
@@ -35,11 +52,12 @@ func genC17(sc *Scenario) {
 		}
 		sc.RootRel = cands[simrt.Choice("c17.root", len(cands))]
 	}
-	if simrt.Flip("c17.output-file", 0.12) {
-		sc.OutputFile = []string{"single.go", "nested/single.go", "../up.go", "../../up2.go", "../../../up3.go"}[simrt.ChoiceBias("c17.output-file-shape", 5, 0.5)]
-	}
-	// failing module
-	if simrt.Flip("c17.fail-module", 0.3) {
+}
+
+// genFailModule plants a definition that fails compilation or generation.
+func genFailModule(sc *Scenario) {
+	p := sc.Prog
+	{
 		k := simrt.Choice("c17.fail-index", len(p.Files))
 		kind := []string{"gen-reserved", "gen-goname", "compile"}[simrt.Choice("c17.fail-kind", 3)]
 		sc.FailModule, sc.FailKind = k, kind
@@ -56,7 +74,10 @@ func genC17(sc *Scenario) {
 		pos := simrt.Choice("c17.fail-pos", len(f.Defs)+1)
 		f.Defs = append(f.Defs[:pos], append([]*progen.Def{d}, f.Defs[pos:]...)...)
 	}
-	// plugin file paths
+}
+
+// genPluginFiles draws the paths the plugins answer with.
+func genPluginFiles(sc *Scenario) {
 	core := corePaths(sc)
 	var taken []string // paths of earlier plugins
 	for _, ps := range sc.Plugins {
@@ -230,22 +251,33 @@ type c17Expect struct {
 	dotdot          []string
 }
 
-func expectC17(sc *Scenario) c17Expect {
-	var e c17Expect
+// hostFaults lists the reasons, independent of any plugin, for which the host
+// must fail without writing anything.
+func hostFaults(sc *Scenario) []string {
+	var out []string
 	if sc.FailModule >= 0 {
 		generated := sc.FailModule == 0 || !(sc.NoRecurse || sc.OutputFile != "")
 		if sc.FailKind == "compile" || generated {
-			e.preWriteFailure = append(e.preWriteFailure, fmt.Sprintf("module %d fails (%s)", sc.FailModule, sc.FailKind))
+			out = append(out, fmt.Sprintf("module %d fails (%s)", sc.FailModule, sc.FailKind))
 		}
 	}
 	if !ancestryOK(sc) {
-		e.preWriteFailure = append(e.preWriteFailure, "a Thrift file lies outside the thrift root")
+		out = append(out, "a Thrift file lies outside the thrift root")
 	}
 	if strings.Contains(sc.OutputFile, "/") {
 		// the single output file goes into the Thrift file's package directory;
 		// a value with directories could leave the output directory
-		e.preWriteFailure = append(e.preWriteFailure, "--output-file names a path, not a file name")
+		out = append(out, "--output-file names a path, not a file name")
 	}
+	if sc.OutputFile != "" && !strings.HasSuffix(sc.OutputFile, ".go") {
+		out = append(out, "--output-file is not a .go name")
+	}
+	return out
+}
+
+func expectC17(sc *Scenario) c17Expect {
+	var e c17Expect
+	e.preWriteFailure = append(e.preWriteFailure, hostFaults(sc)...)
 	for _, ps := range sc.Plugins {
 		switch {
 		case ps.StartFail != 0 || ps.ExitAtStart:
